@@ -361,6 +361,8 @@ C13d(pre, ev, post, aux) ==
            \A d \in Procs :
               /\ (ScriptOn(ev, "shutdown", d) /\ pre.dev[d].down) => Untimed(post.dev[d]) = Untimed(pre.dev[d])
               /\ (ScriptOn(ev, "restore", d) /\ ~pre.dev[d].down) => Untimed(post.dev[d]) = Untimed(pre.dev[d]))
+    \cup C("C13.RestoreResumesEverythingPaused",     \* cycle timers, pending failures, hand-overs: nothing of an operational machine stays paused
+           \A d \in Procs : ~post.dev[d].down => ~\E e \in post.pq : e.asset = d)
     \cup C("C13.WorkOrderKeepsTargetDown", \A d \in Procs : (a1.wo[d] # <<>> /\ ~a1.wo[d][3]) => post.dev[d].down)
     \cup C("C13.WorkOrderLastsExactlyItsDuration",
            \A d \in Procs : (IsStep(ev) /\ ~ev.cancelled /\ ev.kind = "mfinish" /\ ev.arg \div 10 = d) =>
